@@ -108,6 +108,15 @@ Hit(c, row) ==
          \/ c = "sub_borrow" /\ ~LimbLess(row.x, row.y) /\ \E i \in 1..4 : row.x[i] < row.y[i]
     [] OTHER -> FALSE
 
+\* a counter only looks at the lines of its kind (the tables are sorted by kind, so most batches have one kind)
+KindOf(c) ==
+  IF c \in {"bytes2", "bytes_other", "bytes_maskedbit"} THEN "bytes"
+  ELSE IF c = "enc" THEN "enc"
+  ELSE IF c \in {"addr", "addr_sc", "addr_sys", "addr_meta", "addr_protected", "addr_empty", "addr_long"} THEN "addr"
+  ELSE IF c \in {"sub", "sub_underflow", "sub_equal", "sub_borrow"} THEN "sub"
+  ELSE "merge"
+OfKind(k, lo, hi) == IF \A i \in lo..hi : Log[i].k # k THEN {} ELSE {i \in lo..hi : Log[i].k = k}
+
 VARIABLES l, nviol, ndrift, cnt
 tvars == <<l, nviol, ndrift, cnt>>
 
@@ -125,7 +134,7 @@ Step ==
         /\ nviol' = nviol + (IF \A i \in bad : PrintT(<<"VIOL", i, BadOf(i)>>)
                              THEN Cardinality({q \in bad \X (Names \cap Checked) : q[2] \in BadOf(q[1])}) ELSE 0)
         /\ ndrift' = ndrift + (IF \A i \in dr : PrintT(<<"DRIFT", i, Log[i].k>>) THEN Cardinality(dr) ELSE 0)
-        /\ cnt' = [c \in Counters |-> cnt[c] + Cardinality({i \in l..hi : Hit(c, Log[i])})]
+        /\ cnt' = [c \in Counters |-> cnt[c] + Cardinality({i \in OfKind(KindOf(c), l, hi) : Hit(c, Log[i])})]
         /\ l' = hi + 1
 
 Next == Step
